@@ -827,6 +827,12 @@ func (c *Conn) readLoop() {
 func (c *Conn) dispatch(fr *FrameHeader) bool {
 	r, ok := c.loadReq(fr.Stream())
 	if !ok {
+		// Nobody is waiting for this stream any more, but DATA on it still
+		// came out of the connection window.
+		if fr.Type() == FrameData {
+			c.consumeConnWindow(fr.Len())
+		}
+
 		return false
 	}
 
@@ -834,6 +840,10 @@ func (c *Conn) dispatch(fr *FrameHeader) bool {
 	// nowhere to put this frame. Drop the stream and carry on.
 	if !r.acquireFor(c, fr.Stream()) {
 		c.dequeueReq(fr.Stream())
+
+		if fr.Type() == FrameData {
+			c.consumeConnWindow(fr.Len())
+		}
 
 		return false
 	}
